@@ -18,7 +18,11 @@ RULE = ('random *programs* (1-8 steps quick, 1-20 thorough) over the public tens
         'directions, blocked / sorted-with-duplicates / arbitrary legs, length-0 legs and size-0 blocks, each '
         'admissible block stored w.p. 0.7, all-zero blocks, qtotal != 0, shuffled block order, dtypes '
         'int64/float64/complex128/float32/complex64 with small (Gaussian-)integer entries, colliding / conjugated / '
-        'pipe labels; ~12 % intentionally malformed calls. Every program runs on the real code under both kernel '
+        'pipe labels; ~12 % intentionally malformed calls. 2 of 11 programs (quick; 1 of 11 thorough) come from a '
+        'dedicated HIGH-RANK FUSION stream: one tensor of rank 5-7 over small legs (1-3 blocks of size 1-2 over few '
+        'charges, duplicate sectors, dense size <= 500) -> [transpose] -> combine_legs of random groups (trailing axes, '
+        '1-3 groups at once, explicit / negative new_axes, qconj) -> split_legs / transpose + split_legs / tensordot '
+        'with the conjugate over the pipes / nested combine_legs. Every program runs on the real code under both kernel '
         'configurations (fresh compiled build, TENPY_NO_CYTHON=1). Verdict: numpy applied to to_ndarray() of the '
         'operands + documented label rules (model-free oracle). Correspondence: Lean model Arr vs implementation on '
         'dense result, labels, qtotal, every leg (nested pipes, flags), canonicalised block list, _qdata_sorted, '
@@ -31,7 +35,7 @@ TRUSTED = ['Lean 4.33 kernel; axioms of every C01_* theorem ⊆ {propext, Classi
 ASSUMPTIONS = ['products/sums of the generated small integers are exact in every dtype used (|entries| < 2^20)',
                'single-block numpy calls (transpose, reshape, tensordot, trace) = ring-level Dense functions']
 
-QUICK_CASES = 1100
+QUICK_CASES = 1650
 THOROUGH_CASES = 12000
 
 
@@ -436,9 +440,12 @@ def run_stream(ctx, judge=None, prop=PROP, tag='main', use_model=True, frac=0.62
     used (the batch sequence is a deterministic function of the seed: `(seed, tag, index)` replays)."""
     res, entered = core.Result(), {}
     n_max = QUICK_CASES if ctx.quick else THOROUGH_CASES
-    # quick: 5 batches of 220 = 20 x 11 programs (40 of them from the high-rank fusion stream); small batches let a
-    # loaded machine complete more programs within the budget (the deadline is tested between batches)
-    batch = 220 if ctx.quick else 1500
+    # quick: 2 batches of 550 = 50 x 11 programs (100 of each from the high-rank fusion stream). Measured on a loaded
+    # machine (load average > 100 on 16 cores): a batch costs ~15-20 s of start-up (16 worker interpreters importing
+    # tenpy, the Lean drivers) however small it is, and only ~1 s per 100 programs on top; with 4 batches of 275 the
+    # quick tier spent most of its budget on start-up and was cut after 1-2 batches under load. The first batch always
+    # completes, the second one is started if the budget allows.
+    batch = 550 if ctx.quick else 1500
     max_steps = 8 if ctx.quick else 20
     cases = corpus_cases(prop)
     done, k = 0, 0
